@@ -574,7 +574,9 @@ def make_relatives(spec):
     anc.set_native_generation(0)
     mcfg = {'op': 'mutation', 'types': rel.get('mut_types', ['single_add', 'single_edge', 'single_change', 'single_drop',
                                                               'simple', 'growth', 'reduce']),
-            'prob': 1, 'attempts': 5, 'rules': rel.get('rules', 'default'), 'max_depth': 6, 'max_arity': 3}
+            'prob': 1, 'attempts': 5, 'max_depth': 6, 'max_arity': 3,
+            # the relatives must be valid DAGs AND pass the configured rules: weaker rule sets are replaced by the default one
+            'rules': rel.get('rules') if rel.get('rules') in ('default', 'one_root', 'custom') else 'default'}
     xcfg = dict(mcfg, op='crossover', types=rel.get('cross_types', ['subtree', 'one_point', 'exchange_edges',
                                                                     'exchange_parents_one', 'exchange_parents_both',
                                                                     'subgraph']))
@@ -934,7 +936,7 @@ def gen_specs(ctx):
             types = r.sample(MUT_TYPES, k)
             cfg = base_cfg(r, op, types)
             cfg['agent'] = (k > 1) or r.random() < 0.3
-            npop = r.choice([1, 1, 2, 3, 4, 5])
+            npop = r.choice([0, 1, 1, 1, 2, 2, 3, 3, 4, 5])
         else:
             k = r.choice([1, 1, 2, 3])
             types = r.sample(CROSS_TYPES, k)
